@@ -268,7 +268,7 @@ pub fn run(ctx: &Ctx) -> EvidenceMeta {
         ctx.enumerate(s, cases.into_iter(), false);
       }));
     } else {
-      let n = (ctx.n(1200, 12_000) / s.proto.cost().min(20)).max(60);
+      let n = (ctx.n(6000, 60_000) / s.proto.cost().min(20)).max(150);
       jobs.push(Box::new(move || {
         ctx.prop(s, (tok_spec(s.proto, s.layer), alt_strategy(s.proto)).prop_map(|(tok, alt)| KeyCase { tok, alt }), n)
       }));
